@@ -193,5 +193,10 @@ NrmLemma ==
             /\ it.kind \in {"sb", "gt", "st"} => \A p \in Ps : Abs(p[1] - p[2]) > it.kd => (E0[p[1]][p[2]] = 0 /\ EF[p[1]][p[2]] = 0)
             /\ it.kind = "tr" => \A p \in Ps : /\ (IF it.up THEN p[2] < p[1] ELSE p[2] > p[1]) => (E0[p[1]][p[2]] = 0 /\ EF[p[1]][p[2]] = 0)
                                                /\ (it.unit /\ p[1] = p[2]) => (E0[p[1]][p[2]] = 1 /\ EF[p[1]][p[2]] = 1)
+            /\ it.kind = "hs" => \A p \in Ps : p[2] < p[1] - 1 => (E0[p[1]][p[2]] = 0 /\ EF[p[1]][p[2]] = 0)
+            /\ it.kind = "gb" => \A p \in Ps : (p[2] - p[1] > it.ku \/ p[1] - p[2] > it.kd) => (E0[p[1]][p[2]] = 0 /\ EF[p[1]][p[2]] = 0)
+            /\ it.kind = "tb" => \A p \in Ps : /\ (((IF it.up THEN p[2] < p[1] ELSE p[2] > p[1]) \/ Abs(p[1] - p[2]) > it.kd)
+                                                     => (E0[p[1]][p[2]] = 0 /\ EF[p[1]][p[2]] = 0))
+                                                 /\ ((it.unit /\ p[1] = p[2]) => (E0[p[1]][p[2]] = 1 /\ EF[p[1]][p[2]] = 1))
             /\ it.n3[1] <= it.n3[2] /\ it.n3[1] <= it.n3[3]
 =============================================================================
